@@ -36,6 +36,7 @@ class Loop:
     line: int
     kind: str = "for"   # for | while | comp
     bvals: dict = field(default_factory=dict)
+    nguards: int = 0    # number of (atomic) guards in force where the loop statement stands
 
 
 @dataclass
@@ -497,22 +498,7 @@ class Flow:
         if not rets or any(f.kind in ("store", "augstore", "attrstore", "append", "mutate") for f in sub.facts):
             return None
 
-        def build(rs):
-            if len(rs) == 1 and not rs[0][1]:
-                return rs[0][0]
-            conds = [g[0] for v, gs in rs for g in gs[:1]]
-            if not conds or any(not gs for v, gs in rs):
-                return None
-            c = conds[0]
-            t = [(v, gs[1:]) for v, gs in rs if gs[0] == (c, True)]
-            e = [(v, gs[1:]) for v, gs in rs if gs[0] == (c, False)]
-            if len(t) + len(e) != len(rs) or not t or not e:
-                return None
-            a, b = build(t), build(e)
-            if a is None or b is None:
-                return None
-            return ("phi", c, a, b)
-        return build(rets)
+        return phi_of_paths(rets)
 
     # ---- binding ----------------------------------------------------------
     def bind(self, target, value, node):
@@ -727,7 +713,7 @@ class Flow:
 
     def s_For(self, s):
         it = strip_transparent(self.ev(s.iter))
-        lp = Loop(next(self._uid), it, ast.unparse(s.target), s.lineno)
+        lp = Loop(next(self._uid), it, ast.unparse(s.target), s.lineno, nguards=len(self._guards()))
         self.all_loops[lp.id] = lp
         assigned = self._carry(s.body, lp)
         pre = dict(self.env)
@@ -854,6 +840,51 @@ class Flow:
 
     def s_Nonlocal(self, s):
         pass
+
+
+def phi_of_paths(rs):
+    """[(value, [atomic guards])] of the mutually exclusive paths of a decision tree -> the value as nested phi, or None when the
+    guards do not form a complete binary tree (a path missing, two values on one path).  Guards are the atomic guards Flow records
+    (split_guard): the complement of `(a or b, True)` is the run `(a, False), (b, False)`."""
+    if len(rs) == 1 and not rs[0][1]:
+        return rs[0][0]
+    if any(not gs for v, gs in rs):
+        return None
+    for c, pol in dict.fromkeys(gs[0] for v, gs in rs):
+        neg = split_guard((c, not pol))
+        t = [(v, gs[1:]) for v, gs in rs if gs[0] == (c, pol)]
+        e = [(v, gs[len(neg):]) for v, gs in rs if gs[0] != (c, pol) and list(gs[:len(neg)]) == neg]
+        if len(t) + len(e) != len(rs) or not t or not e:
+            continue
+        a, b = phi_of_paths(t), phi_of_paths(e)
+        if a is None or b is None:
+            continue
+        return ("phi", c, a, b) if pol else ("phi", c, b, a)
+    return None
+
+
+def loop_built_seq(fl, name):
+    """A local list created empty and then filled by ONE for-loop whose every iteration appends exactly one element -- on each path
+    through the body (`t = a; if c: t = g(t); X.append(t)`, `if c: X.append(a); continue; X.append(b)`) -- is the comprehension
+    `[elt for <targets> in <iter>]` written as a loop.  -> (Loop, elt) with the loop targets appearing in elt as elem/idx of that
+    loop (the form expand_bvals gives a comprehension), or None when the list is built in any other way."""
+    inits = [f for f in fl.facts if f.kind == "init" and f.target == name]
+    muts = [f for f in fl.facts if f.target == name and f.kind in ("store", "augstore", "append", "remove", "mutate")]
+    if len(inits) != 1 or inits[0].loops or not muts:
+        return None
+    iv = simp(inits[0].value)
+    if iv not in (("list", ()), ("call", ("global", "list"), (), ())):
+        return None
+    if any(f.kind != "append" or f.op != "append" or len(f.loops) != 1 or f.loops[0] is not muts[0].loops[0] or f.seq < inits[0].seq for f in muts):
+        return None
+    lp = muts[0].loops[0]
+    if lp.kind != "for" or any(f.kind in ("break", "return") and lp in f.loops for f in fl.facts):
+        return None
+    elt = phi_of_paths([(f.value, list(f.guards[lp.nguards:])) for f in muts])
+    if elt is None or any(isinstance(x, tuple) and len(x) == 3 and x[0] in ("carried", "after") and x[2] == lp.id for x in walk(elt)) \
+            or any(x == ("acc", name) for x in walk(elt)):
+        return None
+    return lp, elt
 
 
 def _terminates(stmts) -> bool:
@@ -1006,6 +1037,13 @@ def as_map(v):
             return None
         if tg is None or tg[0] != "bv":
             return None
+        if it[0] == "call" and it[1] == ("global", "zip") and not it[3] and it[2]:
+            # `for pair in zip(A, B)` with the pair kept whole: the same single map, the variable standing for the tuple of bodies
+            maps = [as_map(a) for a in it[2]]
+            if all(m is not None and not m[3] for m in maps) and len({m[2] for m in maps}) == 1:
+                e = ("bv", "_z", next(_fresh))
+                sub = {tg: ("tuple", tuple(simp(subst(m[1], {m[0]: e})) for m in maps))}
+                return (e, simp(subst(v[2], sub)), maps[0][2], tuple(simp(subst(c, sub)) for c in ifs))
         inner = as_map(it) if it[0] in ("comp", "copy") else None
         if inner is None:
             return (tg, v[2], it, tuple(ifs))
@@ -1108,6 +1146,14 @@ def simp(v):
                 return [x]
             return [("fmt", x, None, -1)]
         return simp(("fstr", tuple(parts(v[2]) + parts(v[3]))))
+    # getattr(x, "name") is x.name
+    if k == "call" and v[1] == ("global", "getattr") and len(v[2]) == 2 and not v[3] and v[2][1][0] == "const" and isinstance(v[2][1][1], str) \
+            and v[2][1][1].isidentifier():
+        return ("attr", v[2][0], v[2][1][1])
+    # filter(None, <literal sequence>) keeps the truthy elements: decided when every element's truthiness is visible from its shape
+    if k == "call" and v[1] == ("global", "filter") and len(v[2]) == 2 and not v[3] and v[2][0] == ("const", None) and v[2][1][0] in ("list", "tuple") \
+            and all(e[0] != "star" and truthy(e) is not None for e in v[2][1][1]):
+        return ("list", tuple(e for e in v[2][1][1] if truthy(e)))
     if k == "item" and v[1][0] in ("tuple", "list") and isinstance(v[2], int) and not any(e[0] == "star" for e in v[1][1]):
         if -len(v[1][1]) <= v[2] < len(v[1][1]):
             return v[1][1][v[2]]
